@@ -3,7 +3,7 @@
    The four statements the faithful model used to refute (defects fixed in /repo) are now proved in full. *)
 From Coq Require Import List NArith Bool.
 From FB Require Import Model.Pseudo Gen.VfsTable Model.Vfs Proofs.VfsCodec Proofs.VfsAlloc Proofs.VfsInv Proofs.VfsRouting
-  Proofs.VfsIssued Proofs.VfsIdmap Proofs.VfsMapOf.
+  Proofs.VfsIssued Proofs.PseudoWalk Proofs.VfsIdmap Proofs.VfsMapOf Proofs.VfsAsync.
 Import ListNotations.
 Local Open Scope N_scope.
 
@@ -82,6 +82,31 @@ Theorem C14_mapping_of_full : forall o rm l idx mo,
   effective_mapping (fst (grun o rm l)) idx = mapping_expected (fst (grun o rm l)) mo.
 Proof. exact mapping_of_full. Qed.
 
+(* the async twin (impl AsyncFileSystem for Vfs): same answer -- hence the same translated owner ids in every reply --
+   and the same calls with the same translated context ids as the sync method, for every operation except getattr of a
+   pseudo directory; so C14_in_* / C14_out_* speak about the async entry points too *)
+Theorem C14_async_same : forall s c o a, has_async_twin o = true ->
+  (forall n id, o = OGetattr n -> get_real_rootfs s n <> Ok (SLeft id)) ->
+  vfs_async_op s c o a = tagged (vfs_op s c o a).
+Proof. exact vfs_async_same. Qed.
+Theorem C14_async_in_ctx : forall s hdr c o a r evs, has_async_twin o = true -> vfs_request_async s hdr c o a = (r, evs) ->
+  Forall (fun ev => Some (ev_cuid ev) = to_int (effective_mapping s (ctx_idx s hdr)) (c_uid c) /\
+                    Some (ev_cgid ev) = to_int (effective_mapping s (ctx_idx s hdr)) (c_gid c)) evs.
+Proof. exact async_ctx_in. Qed.
+(* async getattr answers like the sync getattr: refuted for pseudo directories (async_getattr returns their attributes
+   without convert_attr: owner 0:0 untranslated); proved when the mapping of index 0 does not cover id 0 *)
+Definition C14_async_getattr_full : Prop := async_getattr_full.
+Theorem C14_async_getattr_refuted : ~ C14_async_getattr_full.
+Proof. exact async_getattr_refuted. Qed.
+Theorem C14_async_getattr_partial : forall s c n a, n < two64 ->
+  to_ext (effective_mapping s 0) 0 = Some 0 ->
+  fst (vfs_async_op s c (OGetattr n) a) = fst (vfs_op s c (OGetattr n) a).
+Proof. exact async_getattr_partial. Qed.
+Example C14_async_example : reachable ex_rootmap /\
+  vfs_request_async ex_rootmap 1 (mkC 100005 100006) (OLookup 1 (NNorm 3)) (mkAns 0 (mkE 9 9 7 8 0) (mkA 0 0 0 0) 0 []) =
+  (Ok (REntry (mkE (mk_vino 1 9) (mk_vino 1 9) 100007 100008 0)), [mkEv 10 (async_tag + m_lookup) 1 0 5 6 0 0]).
+Proof. exact async_lookup_example. Qed.
+
 (* non-vacuity; the witnesses that refuted these statements before the fix commits 7179ce2, 549e05a, 0586b56, 94968f8 *)
 Example C14_nonvacuous_wf : map_wf (0, 100000, 65536) /\ in_range 5 0 65536 /\ in_range 100005 100000 65536.
 Proof. unfold map_wf, in_range, two32. repeat split; discriminate. Qed.
@@ -119,3 +144,7 @@ Print Assumptions C14_out_mount_root.
 Print Assumptions C14_out_root_full.
 Print Assumptions C14_pseudo_owner_full.
 Print Assumptions C14_mapping_of_full.
+Print Assumptions C14_async_same.
+Print Assumptions C14_async_in_ctx.
+Print Assumptions C14_async_getattr_refuted.
+Print Assumptions C14_async_getattr_partial.
